@@ -114,9 +114,10 @@ Example C01_conflict_example :
 Proof. vm_compute. reflexivity. Qed.
 
 (* ---- the whole tree ------------------------------------------------------------------------------------------------ *)
-(* [presented L w c path rp eo log]: verify_path was asked about the object that the tree-relative path rp names (system path
-   grown from (root/path, path) by the same names, or root/rp), with the entry eo (or none), and if it answered "does not
-   match" the handler was invoked for rp with exactly these differences *)
+(* [presented_at L w c dp rp eo log]: verify_path was asked about the system path dp with the entry eo (or none), it answered
+   (no error), and if the answer was "does not match" the handler was invoked for the tree-relative path rp with exactly
+   these differences; [presented L w c path rp eo log]: so for a system path that names the object rp names (grown from
+   (root/path, path) by the same names, or root/rp) *)
 
 (* every entry of the merged dictionary is checked: no entry below the verified directory is passed over *)
 Theorem C01_every_entry_is_checked : forall (L : hashlib) decompress pgp w l path pol lm l' b log,
@@ -138,12 +139,12 @@ Theorem C01_every_found_file_is_checked : forall (L : hashlib) decompress pgp w 
   exists ed, get_file_entry_dict L decompress pgp w l path None true = Ok (l', ed) /\
     forall dp rel ents f, reach w ed (pjoin rootdir path) path dp rel -> p_scandir w dp = Ok ents ->
       In f (map fst (filter (fun x => negb (snd x)) ents)) -> visible (l_top l') rel f = true ->
-      exists eo, presented L w (mk_vctx (l_top l') (l_dev l') pol lm) path (pjoin rel f) eo log /\
+      exists eo, presented_at L w (mk_vctx (l_top l') (l_dev l') pol lm) (pjoin dp f) (pjoin rel f) eo log /\
                  (eo = None \/ exists e dd, eo = Some e /\ In (rel, dd) ed /\ In (f, e) dd).
 Proof.
   intros L decompress pgp w l path pol lm l' b log H.
   destruct (directory_verification_complete L decompress pgp w l path pol lm l' b log H) as [ed [E1 [_ E3]]].
-  exists ed. split; [exact E1|]. intros dp rel ents f Hr Hs Hf Hv. exact (E3 dp rel Hr ents f Hs Hf Hv).
+  exists ed. split; [exact E1|]. intros dp rel ents f Hr Hs Hf Hv. exact (proj2 (E3 dp rel Hr) ents f Hs Hf Hv).
 Qed.
 Print Assumptions C01_every_found_file_is_checked.
 
@@ -154,7 +155,7 @@ Theorem C01_silent_verification_means_match : forall (L : hashlib) decompress pg
        exists dp diff, names_object path dp (pjoin dir n) /\ verify_path L w dp (Some e) (l_dev l') lm = Ok (true, diff)) /\
     (forall dp rel ents f, reach w ed (pjoin rootdir path) path dp rel -> p_scandir w dp = Ok ents ->
        In f (map fst (filter (fun x => negb (snd x)) ents)) -> visible (l_top l') rel f = true ->
-       exists fp eo diff, names_object path fp (pjoin rel f) /\ verify_path L w fp eo (l_dev l') lm = Ok (true, diff) /\
+       exists eo diff, verify_path L w (pjoin dp f) eo (l_dev l') lm = Ok (true, diff) /\
          (eo = None \/ exists e dd, eo = Some e /\ In (rel, dd) ed /\ In (f, e) dd)).
 Proof. exact silent_verification_means_match. Qed.
 Print Assumptions C01_silent_verification_means_match.
